@@ -66,7 +66,7 @@ def gen_case(rng, tier, i):
         nk = rng.randint(0, 4)
         decl = {f"k{j}": rng.choice(TYPES) for j in range(nk)}
         shape = rng.choice(["ok", "ok", "missing", "extra", "wrongtype", "nondict", "subclass", "none_value", "renamed", "empty",
-                            "reordered", "reordered_swapped", "defaultdict", "reused_then_mutated", "extra_none", "extra_falsy"])
+                            "reordered", "reordered_swapped", "defaultdict", "reused_then_mutated", "extra_none", "extra_falsy", "mapping_not_dict"])
         return {"fam": "meta", "decl": decl, "shape": shape, "check": rng.random() < 0.7, "timed": rng.random() < 0.5,
                 "ts": rng.choice([0, 1.5, ["dur", 2.0, "h"], "bad", None])}
     nt, nl = rng.randint(2, 4), rng.randint(2, 5)
@@ -334,6 +334,10 @@ def _meta(case, ctx):
         del payload[keys[0]]
     elif shape == "extra":
         payload["zz_extra"] = 1
+    elif shape == "mapping_not_dict" and keys:
+        # a mapping with the right keys and values that is not a dict (a read-only view, a UserDict): the declaration asks for a dict
+        import types, collections
+        payload = types.MappingProxyType(dict(payload)) if len(keys) % 2 else collections.UserDict(payload)
     elif shape == "extra_none":
         payload["zz_extra"] = None          # a surplus key is a surplus key, whatever its value
         if len(keys) % 2:
